@@ -527,8 +527,11 @@ void ep3_mul_slide(ep3_t r, const ep3_t p, const bn_t k) {
 	int i, j;
 	size_t l;
 	uint8_t win[RLC_FP_BITS + 1];
+	bn_t _m, _n;
 
 	ep3_null(q);
+	bn_null(_m);
+	bn_null(_n);
 
 	if (bn_is_zero(k) || ep3_is_infty(p)) {
 		ep3_set_infty(r);
@@ -542,6 +545,12 @@ void ep3_mul_slide(ep3_t r, const ep3_t p, const bn_t k) {
 		}
 
 		ep3_new(q);
+		bn_new(_m);
+		bn_new(_n);
+
+		/* The window buffer only covers the bit length of the order. */
+		ep3_curve_get_ord(_n);
+		bn_mod(_m, k, _n);
 
 		ep3_copy(t[0], p);
 		ep3_dbl(q, p);
@@ -561,7 +570,7 @@ void ep3_mul_slide(ep3_t r, const ep3_t p, const bn_t k) {
 
 		ep3_set_infty(q);
 		l = RLC_FP_BITS + 1;
-		bn_rec_slw(win, &l, k, RLC_WIDTH);
+		bn_rec_slw(win, &l, _m, RLC_WIDTH);
 		for (i = 0; i < l; i++) {
 			if (win[i] == 0) {
 				ep3_dbl(q, q);
@@ -574,9 +583,6 @@ void ep3_mul_slide(ep3_t r, const ep3_t p, const bn_t k) {
 		}
 
 		ep3_norm(r, q);
-		if (bn_sign(k) == RLC_NEG) {
-			ep3_neg(r, r);
-		}
 	}
 	RLC_CATCH_ANY {
 		RLC_THROW(ERR_CAUGHT);
@@ -586,6 +592,8 @@ void ep3_mul_slide(ep3_t r, const ep3_t p, const bn_t k) {
 			ep3_free(t[i]);
 		}
 		ep3_free(q);
+		bn_free(_m);
+		bn_free(_n);
 	}
 }
 
